@@ -11,16 +11,16 @@ FLIP_BUDGET = 60.0
 _T = None
 
 
-def _rsa_comps():
+def _rsa_comps(bits=1024, e=65537):
     from ..keys import rsa_components
-    c = rsa_components(1024, 65537)
+    c = rsa_components(bits, e)
     n, e, d, p, q = c["n"], c["e"], c["d"], c["p"], c["q"]
     return {"n": n, "e": e, "d": d, "p": p, "q": q, "dp": d % (p - 1), "dq": d % (q - 1), "qinv": nt.inverse(q, p)}
 
 
-def _dsa_comps():
+def _dsa_comps(L=1024, N=160):
     from ..keys import dsa_components
-    return dsa_components(1024, 160)
+    return dsa_components(L, N)
 
 
 def _ec_comps(cn):
@@ -30,26 +30,51 @@ def _ec_comps(cn):
     return {"d": d, "x": Q[0], "y": Q[1]}
 
 
+# targets that only the thorough tier uses: further RSA / DSA fixtures and the remaining Weierstrass curves
+DEEP_RSA = ((1024, 3), (1025, 65537), (1032, 3), (2048, 65537))
+DEEP_DSA = ((2048, 224),)
+DEEP_CURVES = ("p192", "p224", "p384")
+# of the 2048-bit fixtures only the private-key DER forms named here and (RSA) the public forms are flipped: one flip of
+# a 2048-bit DSA public key costs 0.15 s of primality testing
+DEEP_SKIP = ("rsa-2048-65537/pkcs8", "dsa-2048-224/pkcs8", "dsa-2048-224/spki", "dsa-2048-224/openssh")
+
+
+def is_deep(label):
+    head = label.split("/")[0]
+    return head in DEEP_CURVES or head.startswith("rsa-") or head.startswith("dsa-")
+
+
+def labels(quick):
+    """the encodings whose flips the tier enumerates"""
+    return [l for l in sorted(targets()) if not (quick and is_deep(l))]
+
+
+def base_labels():
+    return [l for l in sorted(targets()) if not is_deep(l)]
+
+
 def targets():
     """label -> (kind, curve, comps, fields [(name, fixed width in bits or None)], encoder(comps) -> importer args)"""
     global _T
     if _T is not None:
         return _T
     T = {}
-    r = _rsa_comps()
     priv = [(k, None) for k in ("n", "e", "d", "p", "q", "dp", "dq", "qinv")]
-    T["rsa/pkcs1"] = ("rsa", None, r, priv, lambda c: N.rsa_pkcs1_priv(*[c[k] for k, _ in priv]))
-    T["rsa/pkcs8"] = ("rsa", None, r, priv, lambda c: N.rsa_pkcs8(*[c[k] for k, _ in priv]))
     pub = [("n", None), ("e", None)]
-    T["rsa/pkcs1-pub"] = ("rsa", None, r, pub, lambda c: N.rsa_pkcs1_pub(c["n"], c["e"]))
-    T["rsa/spki"] = ("rsa", None, r, pub, lambda c: N.rsa_spki(c["n"], c["e"]))
-    T["rsa/openssh"] = ("rsa", None, r, pub, lambda c: N.rsa_openssh(c["n"], c["e"]))
-    dd = _dsa_comps()
-    T["dsa/openssl"] = ("dsa", None, dd, [(k, None) for k in "pqgyx"], lambda c: N.dsa_openssl(c["p"], c["q"], c["g"], c["y"], c["x"]))
-    T["dsa/pkcs8"] = ("dsa", None, dd, [(k, None) for k in "pqgx"], lambda c: N.dsa_pkcs8(c["p"], c["q"], c["g"], c["x"]))
-    T["dsa/spki"] = ("dsa", None, dd, [(k, None) for k in "pqgy"], lambda c: N.dsa_spki(c["p"], c["q"], c["g"], c["y"]))
-    T["dsa/openssh"] = ("dsa", None, dd, [(k, None) for k in "pqgy"], lambda c: N.dsa_openssh(c["p"], c["q"], c["g"], c["y"]))
-    for cn in ("p256", "p521"):
+    for pre, r in [("rsa", _rsa_comps())] + [("rsa-%d-%d" % be, _rsa_comps(*be)) for be in DEEP_RSA]:
+        T[pre + "/pkcs1"] = ("rsa", None, r, priv, lambda c: N.rsa_pkcs1_priv(*[c[k] for k, _ in priv]))
+        T[pre + "/pkcs8"] = ("rsa", None, r, priv, lambda c: N.rsa_pkcs8(*[c[k] for k, _ in priv]))
+        T[pre + "/pkcs1-pub"] = ("rsa", None, r, pub, lambda c: N.rsa_pkcs1_pub(c["n"], c["e"]))
+        T[pre + "/spki"] = ("rsa", None, r, pub, lambda c: N.rsa_spki(c["n"], c["e"]))
+        T[pre + "/openssh"] = ("rsa", None, r, pub, lambda c: N.rsa_openssh(c["n"], c["e"]))
+    for pre, dd in [("dsa", _dsa_comps())] + [("dsa-%d-%d" % ln, _dsa_comps(*ln)) for ln in DEEP_DSA]:
+        T[pre + "/openssl"] = ("dsa", None, dd, [(k, None) for k in "pqgyx"], lambda c: N.dsa_openssl(c["p"], c["q"], c["g"], c["y"], c["x"]))
+        T[pre + "/pkcs8"] = ("dsa", None, dd, [(k, None) for k in "pqgx"], lambda c: N.dsa_pkcs8(c["p"], c["q"], c["g"], c["x"]))
+        T[pre + "/spki"] = ("dsa", None, dd, [(k, None) for k in "pqgy"], lambda c: N.dsa_spki(c["p"], c["q"], c["g"], c["y"]))
+        T[pre + "/openssh"] = ("dsa", None, dd, [(k, None) for k in "pqgy"], lambda c: N.dsa_openssh(c["p"], c["q"], c["g"], c["y"]))
+    for lb in DEEP_SKIP:
+        del T[lb]
+    for cn in ("p256", "p521") + DEEP_CURVES:
         ec = _ec_comps(cn)
         nb = E.CURVES[cn].size_bytes
         w = 8 * nb
@@ -65,7 +90,8 @@ def targets():
         T["%s/rfc5915-nopub" % cn] = ("ec", cn, ec, [("d", w)], lambda c, db=db, cn=cn: N.ec_rfc5915(cn, db(c), None))
         T["%s/spki" % cn] = ("ec", cn, ec, [("x", w), ("y", w)], lambda c, pt=pt, cn=cn: N.ec_spki(cn, pt(c)))
         T["%s/sec1" % cn] = ("ec-sec1", cn, ec, [("x", w), ("y", w)], lambda c, pt=pt: pt(c))
-        T["%s/openssh" % cn] = ("ec", cn, ec, [("x", w), ("y", w)], lambda c, pt=pt, cn=cn: H.openssh_ecdsa(cn, pt(c)))
+        if cn in H.OPENSSH:
+            T["%s/openssh" % cn] = ("ec", cn, ec, [("x", w), ("y", w)], lambda c, pt=pt, cn=cn: H.openssh_ecdsa(cn, pt(c)))
         ecc = dict(ec, pre=2 + (ec["y"] & 1))
         T["%s/spki-compressed" % cn] = ("ec", cn, ecc, [("x", w), ("pre", 8)], lambda c, cp=cp, cn=cn: N.ec_spki(cn, cp(c)))
         T["%s/sec1-compressed" % cn] = ("ec-sec1", cn, ecc, [("x", w), ("pre", 8)], lambda c, cp=cp: cp(c))
@@ -164,7 +190,8 @@ def check_flip(case, acc):
 
 def flip_shards(quick):
     out = []
-    for label, (kind, cn, comps, fields, enc) in sorted(targets().items()):
+    for label in labels(quick):
+        kind, cn, comps, fields, enc = targets()[label]
         if quick and label in ("dsa/pkcs8", "dsa/openssh", "rsa/pkcs8"):
             continue
         for name, width in fields:
@@ -173,6 +200,17 @@ def flip_shards(quick):
             for i in range(0, len(bits), step):
                 out.append([(label, name, bits[i:i + step])])
         out.append([(label, None, [None])])
+    if not quick:
+        # heaviest first: the cost of one flip grows with the cube of the modulus length (primality tests of the importer)
+        def weight(sh):
+            label, name, bits = sh[0]
+            kind, cn, comps, fields, enc = targets()[label]
+            if kind == "rsa":
+                return -(comps["n"].bit_length() ** 3) * (17 if "d" in [f for f, _ in fields] else 0.2) * len(bits)
+            if kind == "dsa":
+                return -(comps["p"].bit_length() ** 3) * 30 * len(bits)
+            return 0
+        out.sort(key=weight)
     return out
 
 
